@@ -20,6 +20,7 @@ import (
 	"fmt"
 	"io"
 	"math/rand"
+	"net"
 	"os"
 	"reflect"
 	"runtime"
@@ -269,6 +270,93 @@ func c10ExtOdd(kind string, val interface{}) (interface{}, bool) {
 		}
 	}
 	return nil, false
+}
+
+// c10VarBound returns a copy of the generated message value in which one
+// variable-length field has a boundary length.  The candidates are found by
+// Go type: the uint16-prefixed byte strings (ping/pong payload, error and
+// warning data, opaque failure reason, plain []byte fields), the delivery
+// address (max 34), an address list (gets three IPv4 addresses plus a DNS
+// address whose host name is 1, 252..255 bytes long at the list position
+// `pos`) and the DNS host name record of node_announcement_2.  `pos` picks
+// the first/middle/last candidate field, `rep` cycles the lengths.  A value
+// the codec refuses to encode (too long for a message) is not applicable.
+func c10VarBound(kind string, val interface{}, pos string, rep int) (interface{}, bool) {
+	if kind != "msg" {
+		return nil, false
+	}
+	b, err := c10Codecs[kind].enc(val)
+	if err != nil {
+		return nil, false
+	}
+	cpv, err := c10Codecs[kind].dec(bytes.NewReader(b))
+	if err != nil {
+		return nil, false
+	}
+	rv := reflect.ValueOf(cpv)
+	if rv.Kind() != reflect.Ptr || rv.Elem().Kind() != reflect.Struct {
+		return nil, false
+	}
+	st := rv.Elem()
+	var cands []int
+	for i := 0; i < st.NumField(); i++ {
+		f := st.Field(i)
+		if !f.CanSet() {
+			continue
+		}
+		switch f.Interface().(type) {
+		case PingPayload, PongPayload, ErrorData, WarningData, OpaqueReason, DeliveryAddress, []net.Addr,
+			tlv.OptionalRecordT[tlv.TlvType11, DNSAddress]:
+			cands = append(cands, i)
+		case []byte:
+			cands = append(cands, i)
+		}
+	}
+	if len(cands) == 0 {
+		return nil, false
+	}
+	f := st.Field(c10Pick(cands, pos))
+	host := func(n int) string { return string(bytes.Repeat([]byte{'a'}, n)) }
+	dnsLens := []int{1, 252, 253, 254, 255}
+	setLen := func(n int) {
+		f.Set(reflect.ValueOf(bytes.Repeat([]byte{0x61}, n)).Convert(f.Type()))
+	}
+	switch f.Interface().(type) {
+	case []net.Addr:
+		addrs := []net.Addr{
+			&net.TCPAddr{IP: net.IP{10, 0, 0, 1}, Port: 9735},
+			&net.TCPAddr{IP: net.IP{10, 0, 0, 2}, Port: 9736},
+			&net.TCPAddr{IP: net.IP{10, 0, 0, 3}, Port: 9737},
+		}
+		dns := &DNSAddress{Hostname: host(dnsLens[rep%len(dnsLens)]), Port: 9735}
+		at := map[string]int{"head": 0, "mid": 2, "tail": 3}[pos]
+		out := append([]net.Addr{}, addrs[:min(at, 3)]...)
+		out = append(out, dns)
+		out = append(out, addrs[min(at, 3):]...)
+		f.Set(reflect.ValueOf(out))
+	case tlv.OptionalRecordT[tlv.TlvType11, DNSAddress]:
+		d := DNSAddress{Hostname: host(dnsLens[rep%len(dnsLens)]), Port: 9735}
+		f.Set(reflect.ValueOf(tlv.SomeRecordT(tlv.NewRecordT[tlv.TlvType11](d))))
+	case DeliveryAddress:
+		setLen([]int{1, 33, 34}[rep%3])
+	default:
+		lens := []int{1, 255, 256, 257, -1}
+		n := lens[rep%len(lens)]
+		if n < 0 {
+			// the maximum that still fits into a message
+			setLen(1)
+			b1, err := c10Codecs[kind].enc(cpv)
+			if err != nil {
+				return nil, false
+			}
+			n = MaxMsgBody + 2 - (len(b1) - 1)
+			if n > 65535 {
+				n = 65535
+			}
+		}
+		setLen(n)
+	}
+	return cpv, true
 }
 
 // c10Mutate builds the input of one plan cell; ok=false: not applicable.
@@ -589,8 +677,14 @@ func TestVerifC10WireLaws(t *testing.T) {
 			var orig interface{}
 			var in []byte
 			app := false
-			if c.Op == "ext-odd" {
-				if ev, ok := c10ExtOdd(c.Kind, v.val); ok {
+			if c.Op == "ext-odd" || c.Op == "var-bound" {
+				ev, ok := interface{}(nil), false
+				if c.Op == "ext-odd" {
+					ev, ok = c10ExtOdd(c.Kind, v.val)
+				} else {
+					ev, ok = c10VarBound(c.Kind, v.val, c.Pos, rep)
+				}
+				if ok {
 					if eb, err := c10Codecs[c.Kind].enc(ev); err == nil {
 						in, orig, app = eb, ev, true
 					}
